@@ -37,6 +37,30 @@ theorem error_flows_redacted :
 (`panos.httpGet: s.client.Get(uri)`) reaching `device.ApproveOrCompare: errlog.Abort("%v", err)`. -/
 theorem raw_flows_exact : NA.C17.rawFlows = [(197749963, 3659553034)] := by decide
 
+/-! ## where a password can enter (regenerated table `inputs`) -/
+
+/-- Every place where the program reads from outside — files, environment variables, terminal,
+command line flags, `os.Args` — is classified by the hand-written table `inputKinds`; a new one (say a
+flag `-p` or `os.Getenv("PASSWORD")`) has an unknown id and fails here. -/
+theorem all_inputs_classified : NA.C17.unclassifiedInputs = [] := by decide
+
+/-- Every place classified as a password source is a taint seed of `translate/sinks` … -/
+theorem password_inputs_are_seeds : NA.C17.unseededPasswordInputs = [] := by decide
+
+/-- … and the password sources are exactly two: the terminal (`askPassword`: `term.ReadPassword`, taken
+with `drc -u USER`) and the credentials file (`getSystemPassword`: `os.ReadFile`). -/
+theorem password_inputs_exact :
+    NA.C17.seededInputs = [1756730485, 2557253177] ∧
+    (NA.C17.inputKinds.filter fun p => p.2.isPassword).map (·.1) = [1756730485, 2557253177] := by decide
+
+/-- There is no `-p` flag and no password environment variable: these are all flags and all
+environment variables of the module, by name. -/
+theorem no_password_flag_or_environment :
+    NA.C17.inputNames "flag.StringP" = ["logdir", "LOGFILE", "user"] ∧
+    NA.C17.inputNames "flag.BoolP" = ["brief", "compare", "quiet", "version"] ∧
+    NA.C17.inputNames "os.Getenv" = ["TEST_TIME", "SIMULATE_ROUTER", "SIMULATE_ROUTER", "SIMULATE_ROUTER", "SIMULATE_ROUTER"] := by
+  decide
+
 /-! ## NSX and SSH runs derived from the regenerated steps
 
 Nothing below is written by hand about where a secret goes: the steps (sink writes and transmissions,
@@ -97,6 +121,7 @@ def failureLemma : FailureKind → Lean.Name
 def obligations : List Lean.Name := [``all_sink_sites_covered, ``fc17_sites_exact, ``every_sink_kind_listed,
   ``all_error_sources_classified, ``error_flows_redacted, ``raw_flows_exact,
   ``nsx_steps_independent, ``ssh_steps_independent, ``panos_steps_independent, ``common_steps_secret_only_at_fc17,
-  ``nsx_secrets_are_transmitted, ``ssh_password_is_transmitted]
+  ``nsx_secrets_are_transmitted, ``ssh_password_is_transmitted,
+  ``all_inputs_classified, ``password_inputs_are_seeds, ``password_inputs_exact, ``no_password_flag_or_environment]
 
 end NA.C17Sites
